@@ -13,8 +13,8 @@
         }
         /// the command's reply set
         open spec fn ctrl_known(c: u8, i: u8) -> bool { (c == 6 && i == 15) || (c == 6 && i == 30) }
-        /// a packet of the reply set that its own packet type decodes is accepted
-        open spec fn parse_defined(b: Seq<u8>) -> bool { b.len() >= 2 && ((b[0] == 6 && b[1] == 15 && <crate::packets::CVendFunctionsEnhancedSystemInformationCompletion as zvt_builder::ZvtSerializer>::zd_defined(b)) || (b[0] == 6 && b[1] == 30 && <crate::packets::Abort as zvt_builder::ZvtSerializer>::zd_defined(b))) }
+        /// a packet of the reply set (an APDU has at least its three header bytes) that its own packet type decodes is accepted
+        open spec fn parse_defined(b: Seq<u8>) -> bool { b.len() >= 3 && ((b[0] == 6 && b[1] == 15 && <crate::packets::CVendFunctionsEnhancedSystemInformationCompletion as zvt_builder::ZvtSerializer>::zd_defined(b)) || (b[0] == 6 && b[1] == 30 && <crate::packets::Abort as zvt_builder::ZvtSerializer>::zd_defined(b))) }
         //@ fn exp:zvt | impl zvt_builder::ZvtParser for GetSystemInfoResponse | zvt_parse | mod=feig::sequences props=C15,C02
         //@ end
     }
@@ -34,8 +34,8 @@
         }
         /// the command's reply set
         open spec fn ctrl_known(c: u8, i: u8) -> bool { (c == 6 && i == 15) || (c == 4 && i == 12) || (c == 6 && i == 30) }
-        /// a packet of the reply set that its own packet type decodes is accepted
-        open spec fn parse_defined(b: Seq<u8>) -> bool { b.len() >= 2 && ((b[0] == 6 && b[1] == 15 && <crate::packets::CompletionData as zvt_builder::ZvtSerializer>::zd_defined(b)) || (b[0] == 4 && b[1] == 12 && <crate::packets::RequestForData as zvt_builder::ZvtSerializer>::zd_defined(b)) || (b[0] == 6 && b[1] == 30 && <crate::packets::Abort as zvt_builder::ZvtSerializer>::zd_defined(b))) }
+        /// a packet of the reply set (an APDU has at least its three header bytes) that its own packet type decodes is accepted
+        open spec fn parse_defined(b: Seq<u8>) -> bool { b.len() >= 3 && ((b[0] == 6 && b[1] == 15 && <crate::packets::CompletionData as zvt_builder::ZvtSerializer>::zd_defined(b)) || (b[0] == 4 && b[1] == 12 && <crate::packets::RequestForData as zvt_builder::ZvtSerializer>::zd_defined(b)) || (b[0] == 6 && b[1] == 30 && <crate::packets::Abort as zvt_builder::ZvtSerializer>::zd_defined(b))) }
         //@ fn exp:zvt | impl zvt_builder::ZvtParser for WriteFileResponse | zvt_parse | mod=feig::sequences props=C15,C02
         //@ end
     }
@@ -53,8 +53,8 @@
         }
         /// the command's reply set
         open spec fn ctrl_known(c: u8, i: u8) -> bool { (c == 6 && i == 15) }
-        /// a packet of the reply set that its own packet type decodes is accepted
-        open spec fn parse_defined(b: Seq<u8>) -> bool { b.len() >= 2 && ((b[0] == 6 && b[1] == 15 && <crate::packets::CompletionData as zvt_builder::ZvtSerializer>::zd_defined(b))) }
+        /// a packet of the reply set (an APDU has at least its three header bytes) that its own packet type decodes is accepted
+        open spec fn parse_defined(b: Seq<u8>) -> bool { b.len() >= 3 && ((b[0] == 6 && b[1] == 15 && <crate::packets::CompletionData as zvt_builder::ZvtSerializer>::zd_defined(b))) }
         //@ fn exp:zvt | impl zvt_builder::ZvtParser for FactoryResetResponse | zvt_parse | mod=feig::sequences props=C15,C02
         //@ end
     }
@@ -73,8 +73,8 @@
         }
         /// the command's reply set
         open spec fn ctrl_known(c: u8, i: u8) -> bool { (c == 6 && i == 15) || (c == 6 && i == 30) }
-        /// a packet of the reply set that its own packet type decodes is accepted
-        open spec fn parse_defined(b: Seq<u8>) -> bool { b.len() >= 2 && ((b[0] == 6 && b[1] == 15 && <crate::packets::CompletionData as zvt_builder::ZvtSerializer>::zd_defined(b)) || (b[0] == 6 && b[1] == 30 && <crate::packets::Abort as zvt_builder::ZvtSerializer>::zd_defined(b))) }
+        /// a packet of the reply set (an APDU has at least its three header bytes) that its own packet type decodes is accepted
+        open spec fn parse_defined(b: Seq<u8>) -> bool { b.len() >= 3 && ((b[0] == 6 && b[1] == 15 && <crate::packets::CompletionData as zvt_builder::ZvtSerializer>::zd_defined(b)) || (b[0] == 6 && b[1] == 30 && <crate::packets::Abort as zvt_builder::ZvtSerializer>::zd_defined(b))) }
         //@ fn exp:zvt | impl zvt_builder::ZvtParser for ChangeHostConfigurationResponse | zvt_parse | mod=feig::sequences props=C15,C02
         //@ end
     }
